@@ -30,6 +30,8 @@ func runC02(c *Ctx, r *Report) {
 		r.Floor("C02-e/slice", 3, "line slices in GetMatch and WrapIndices")
 	}
 	c02ContiguousCopy(c, r)
+	c02ResultNotRecycled(c, r, "C02-g/result-not-recycled")
+	c02NamesVerbatim(c, r, "C02-h/names-verbatim")
 	sites := findSeparatorSites(c, extractorPkg)
 	emitSeparatorSites(c, r, "C02-e/list-view", sites, nil)
 	r.Floor("C02-e/list-view", 1, "SliceSpaceExpressionContext.array")
